@@ -237,6 +237,32 @@ func aeLargePictures(seed int64, alphaOnly bool) []aePic {
 			}
 		}
 	}
+	// three pictures that drive the "full-canvas key frame is smaller than the sub-frame" decision: half
+	// the pixels random, half flat (in a random pattern) with two translucent columns that never change;
+	// the same with a 2x2 block changed (a small sub-frame); everything flat (the changed-pixel mask is
+	// random, so the sub-frame with holes codes worse than the whole flat picture)
+	speckle := image.NewNRGBA(image.Rect(0, 0, aeLW, aeLH))
+	flatGlow := image.NewNRGBA(image.Rect(0, 0, aeLW, aeLH))
+	for y := 0; y < aeLH; y++ {
+		for x := 0; x < aeLW; x++ {
+			c := next()
+			fl := color.NRGBA{10, 120, 200, 255}
+			switch {
+			case x < 2:
+				c, fl = color.NRGBA{200, 50, 50, 128}, color.NRGBA{200, 50, 50, 128}
+			case c.R&1 == 0:
+				c = fl
+			}
+			speckle.SetNRGBA(x, y, c)
+			flatGlow.SetNRGBA(x, y, fl)
+		}
+	}
+	speckle2 := clone(speckle)
+	for y := 6; y < 8; y++ {
+		for x := 10; x < 12; x++ {
+			speckle2.SetNRGBA(x, y, color.NRGBA{255, 255, 0, 255})
+		}
+	}
 	semiOnlyL := image.NewNRGBA(image.Rect(0, 0, aeLW, aeLH)) // the translucent band alone on transparent ground
 	for y := 4; y < 12; y++ {
 		for x := 0; x < aeLW; x++ {
@@ -268,6 +294,9 @@ func aeLargePictures(seed int64, alphaOnly bool) []aePic {
 		self("L-semi-band-opaque-px", semiO)
 		self("L-semi-band-alone", semiOnlyL)
 		self("L-glow", glow)
+		self("L-speckle", speckle)
+		self("L-speckle-2x2", speckle2)
+		self("L-flat-glow-columns", flatGlow)
 		self("L-binary-right", binR)
 		self("L-late-row-transparent", late)
 		return out
@@ -282,6 +311,9 @@ func aeLargePictures(seed int64, alphaOnly bool) []aePic {
 	self("L-semi-band", semi)
 	self("L-semi-band-opaque-px", semiO)
 	self("L-semi-band-alone", semiOnlyL)
+	self("L-speckle", speckle)
+	self("L-speckle-2x2", speckle2)
+	self("L-flat-glow-columns", flatGlow)
 	return out
 }
 
@@ -683,7 +715,7 @@ func init() {
 			}
 			return 4
 		},
-		"explicit-state BFS over the real lossless AnimEncoder on an 8x8 canvas: every AddFrame history up to depth 3 (thorough 4; a 10-picture core alphabet one level deeper) over 25 (picture, duration) operations (18 pictures: base, 1-pixel changes at even/odd coordinates, 2x2 block, all changed, translucent band with unchanged translucent neighbours, pixel becoming transparent, binary alpha, smaller than the canvas in three shapes, foreign-stride view, fully transparent; durations 0/1/100/0xFFFFFF ms) x 8 configurations (Kmin/Kmax x loop count), and a third search on a 24x16 canvas over 10 pictures that have more colours than a palette holds (every pixel its own colour; changed corner pixels whose bounding box is the canvas; a changed region followed by unchanged pixels; transparent pixels that come only after 256 colours; translucent band); every history is closed and played back by animation.DecodeBytes+AnimDecoder and by the reference stack and compared with the run-length-merged input list, display times, total duration, loop count, canvas size")
+		"explicit-state BFS over the real lossless AnimEncoder on an 8x8 canvas: every AddFrame history up to depth 3 (thorough 4; a 10-picture core alphabet one level deeper) over 25 (picture, duration) operations (18 pictures: base, 1-pixel changes at even/odd coordinates, 2x2 block, all changed, translucent band with unchanged translucent neighbours, pixel becoming transparent, binary alpha, smaller than the canvas in three shapes, foreign-stride view, fully transparent; durations 0/1/100/0xFFFFFF ms) x 8 configurations (Kmin/Kmax x loop count), and a third search on a 24x16 canvas over 13 pictures that have more colours than a palette holds (every pixel its own colour; changed corner pixels whose bounding box is the canvas; a changed region followed by unchanged pixels; transparent pixels that come only after 256 colours; translucent band; a half-random picture followed by a flat one, for which the full-canvas key frame beats the sub-frame); every history is closed and played back by animation.DecodeBytes+AnimDecoder and by the reference stack and compared with the run-length-merged input list, display times, total duration, loop count, canvas size")
 	registerAnimEnc("C18", true,
 		func(e *fw.Env) []aeConfig {
 			var out []aeConfig
@@ -706,5 +738,5 @@ func init() {
 			}
 			return 4
 		},
-		"explicit-state BFS over the real AnimEncoder in lossy and mixed-codec modes on an 8x8 canvas: every AddFrame history up to depth 3 (thorough 4; a reduced alphabet one level deeper) over 11 operations (10 pictures with binary, graded and translucent alpha on opaque and on transparent ground, fully transparent, opaque; durations 0/100/0xFFFFFF ms) x 8 configurations (Lossless x AllowMixed x Quality x key-frame setting), and a third search on a 24x16 canvas (two macroblocks) over 8 pictures; the alpha channel of every played-back canvas (this package's player and the reference stack) must equal the source alpha exactly")
+		"explicit-state BFS over the real AnimEncoder in lossy and mixed-codec modes on an 8x8 canvas: every AddFrame history up to depth 3 (thorough 4; a reduced alphabet one level deeper) over 11 operations (10 pictures with binary, graded and translucent alpha on opaque and on transparent ground, fully transparent, opaque; durations 0/100/0xFFFFFF ms) x 8 configurations (Lossless x AllowMixed x Quality x key-frame setting), and a third search on a 24x16 canvas (two macroblocks) over 11 pictures; the alpha channel of every played-back canvas (this package's player and the reference stack) must equal the source alpha exactly")
 }
